@@ -129,13 +129,37 @@ def _gdb_members(exe, typ):
     return mem
 
 
+def _moved_members(gen):
+    """Members whose side of OPUS_*_RESET_START differs from what the model's reset assumes
+    (encAfterMarkerNames / decAfterMarkerNames of OpusModel/ResetState.lean)."""
+    model = open(os.path.join(common.LEAN, 'OpusModel', 'ResetState.lean')).read()
+    notes = []
+    for lname, mname, marker in (('encFields', 'encAfterMarkerNames', 'OPUS_ENCODER_RESET_START'),
+                                 ('decFields', 'decAfterMarkerNames', 'OPUS_DECODER_RESET_START')):
+        blk = re.search(r'def %s : List Field := \[(.*?)\n\]' % lname, gen, re.S).group(1)
+        after = [m.group(1) for m in re.finditer(r'⟨"(\w+)", \d+, \d+, \d+, "\w", true⟩', blk)]
+        allm = [m.group(1) for m in re.finditer(r'⟨"(\w+)", ', blk)]
+        want = re.findall(r'"(\w+)"', re.search(r'def %s : List String :=\s*\[(.*?)\]' % mname, model, re.S).group(1))
+        for n in want:
+            if n in allm and n not in after:
+                notes.append('%s.%s now lies BEFORE %s: OPUS_RESET_STATE no longer clears it' % (lname[:3], n, marker))
+        for n in after:
+            if n not in want:
+                notes.append('%s.%s now lies AFTER %s: OPUS_RESET_STATE clears it (the model treats it as surviving)' % (lname[:3], n, marker))
+    return notes
+
+
 def pre_build(ctx):
     """The member lists printed by the extractor must be the compiler's (names, offsets, sizes, pointer-ness)."""
     info = {}
+    try:
+        ctx._c12_moved = _moved_members(open(os.path.join(common.LEAN, 'OpusModel', 'Gen', 'StructFields.lean')).read())
+    except Exception as e:
+        ctx._c12_moved = ['(could not compare the reset region with the model: %s)' % e]
     exe = os.path.join(common.scratch(), 'extract_StructFields')
     gen = open(os.path.join(common.LEAN, 'OpusModel', 'Gen', 'StructFields.lean')).read()
     if not os.path.exists(exe) or common.sh(['which', 'gdb'])[0] != 0:
-        return {'StructFields-dwarf': {'checked': False}}
+        return {'StructFields-dwarf': {'checked': False, 'moved_across_reset_marker': ctx._c12_moved}}
     bad = []
     for lname, typ in _ROOTS.items():
         blk = re.search(r'def %s : List Field := \[(.*?)\n\]' % lname, gen, re.S).group(1)
@@ -150,7 +174,7 @@ def pre_build(ctx):
         info[lname] = len(theirs)
     if bad:
         raise RuntimeError('tools/extract/StructFields.c (harness/c12_fields.h) is out of date: ' + '; '.join(bad))
-    return {'StructFields-dwarf': {'checked': True, 'members': info}}
+    return {'StructFields-dwarf': {'checked': True, 'members': info, 'moved_across_reset_marker': ctx._c12_moved}}
 
 
 # ------------------------------------------------------------------ S3
@@ -203,7 +227,7 @@ def classify(ctx, tie, mm):
     keys = set(d.replace('celt.', 'celt.').replace('DecControl.', 'DecControl.') for d in diff)
     for w in wits:
         cause = w.get('cause', '')
-        if any(k.split('.')[-1] in cause for k in keys):
+        if any(re.sub(r'\(.*\)', '', k.split('.')[-1]) in cause for k in keys):
             return dict((k, v) for k, v in w.items() if k != 'cause')
     return None
 
@@ -291,6 +315,8 @@ def _witness(ctx, j, m, attrib=True):
     what = {'clone': 'a memcpy clone of get_size bytes taken at op %s' % m.group(7),
             'reset': 'the object after OPUS_RESET_STATE at op %s vs. a newly initialised object with the same settings replayed' % m.group(7),
             'determ': 'the same history run twice (heap/stack zero-filled vs 0x5A-poisoned, decoy objects alive)'}[mode]
+    moved = getattr(ctx, '_c12_moved', [])
+    layout = (' [struct layout changed (model_fields_cover_struct breaks): ' + '; '.join(moved) + ']') if moved and mode == 'reset' else ''
     return {
         'suite': 'twin-%s-%s' % (mode, kind),
         'input': 'c12_twin case %s %s %d %d%s%s class=%s %s' % (
@@ -298,7 +324,7 @@ def _witness(ctx, j, m, attrib=True):
             '' if variant == 'plain' else ' variant=' + variant, m.group(5), cause),
         'expected': 'op %s %s -> %s' % (m.group(9), m.group(10), m.group(11)),
         'observed': 'op %s %s -> %s' % (m.group(9), m.group(10), m.group(12)),
-        'why': '%s answered a later call differently (return code / packet bytes / PCM bit pattern / final range / getter value)' % what,
+        'why': '%s answered a later call differently (return code / packet bytes / PCM bit pattern / final range / getter value)%s' % (what, layout),
         'cause': cause, 'mode': mode, 'kind': kind, 'index': idx, 'cap': cap, 'variant': variant,
     }
 
